@@ -20,6 +20,14 @@ class Unfoldable(Exception):
     pass
 
 
+def _depth(z) -> int:
+    d = 0
+    while isinstance(z, list):
+        d += 1
+        z = z[0] if z else None
+    return d
+
+
 def _ew(f, a, b=None):
     """elementwise application with scalar broadcasting"""
     if b is None:
@@ -27,6 +35,11 @@ def _ew(f, a, b=None):
             return [_ew(f, x) for x in a]
         return f(a)
     if isinstance(a, list) and isinstance(b, list):
+        da, db = _depth(a), _depth(b)
+        while da < db:  # broadcasting aligns trailing axes: (n,) against (m, n) is (1, n)
+            a, da = [a], da + 1
+        while db < da:
+            b, db = [b], db + 1
         if len(a) != len(b) and len(a) == 1:
             return [_ew(f, a[0], y) for y in b]
         if len(a) != len(b) and len(b) == 1:
@@ -48,6 +61,8 @@ class Folder:
         self.decide = decide
         #: repository functions that may be evaluated when called by bare name: name -> ast.FunctionDef (set by the caller)
         self.funcs: Dict[str, ast.FunctionDef] = {}
+        #: torch.zeros / torch.ones with integer sizes give a nested list of that shape instead of a broadcasting scalar
+        self.materialise = False
 
     def fold(self, node: ast.AST):
         if isinstance(node, ast.Constant):
@@ -68,6 +83,27 @@ class Folder:
             if ch in self.attrs:
                 v = self.attrs[ch]
                 return self.fold(v) if isinstance(v, ast.AST) else v
+            if ch is not None and ch.startswith("torch.") and ch.split(".")[-1] in ("int8", "int16", "int32", "int64", "uint8", "long", "int", "float16", "float32", "float64", "float", "double", "bool", "complex64", "complex128", "bfloat16"):
+                return ch
+            if node.attr == "dtype":
+                v = self.fold(node.value)
+                flat = []
+
+                def _fl(z):
+                    if isinstance(z, list):
+                        for y in z:
+                            _fl(y)
+                    else:
+                        flat.append(z)
+
+                _fl(v)
+                if any(isinstance(x, complex) for x in flat):
+                    return "torch.complex64"
+                if any(isinstance(x, float) for x in flat):
+                    return "torch.float32"
+                if flat and all(isinstance(x, bool) for x in flat):
+                    return "torch.bool"
+                return "torch.int64"
             if node.attr == "shape":
                 v = self.fold(node.value)
                 dims = []
@@ -178,6 +214,12 @@ class Folder:
             if isinstance(base, list) and isinstance(i, int) and not isinstance(i, bool) and -len(base) <= i < len(base):
                 return base[i]
             raise Unfoldable("subscript")
+        if isinstance(node, ast.Compare) and len(node.ops) == 1 and isinstance(node.ops[0], (ast.In, ast.NotIn)):
+            a, b = self.fold(node.left), self.fold(node.comparators[0])
+            if not isinstance(b, (list, str)) or isinstance(a, list):
+                raise Unfoldable("membership test")
+            r = a in b
+            return r if isinstance(node.ops[0], ast.In) else not r
         if isinstance(node, ast.Compare) and len(node.ops) == 1 and isinstance(node.ops[0], (ast.Is, ast.IsNot)):
             a, b = self.fold(node.left), self.fold(node.comparators[0])
             same = (a is b) or (a is None and b is None) or (isinstance(a, bool) and isinstance(b, bool) and a == b)
@@ -200,7 +242,7 @@ class Folder:
                 if isinstance(v, int) and not isinstance(v, bool):
                     return v.bit_length()
                 raise Unfoldable("bit_length of a non-integer")
-            if m in ("to", "float", "int", "long", "double", "type", "clone", "contiguous", "item", "detach"):
+            if m in ("to", "float", "int", "long", "double", "type", "clone", "contiguous", "item", "detach", "cpu", "cuda"):
                 return self.fold(node.func.value)
             if m == "size" and len(node.args) <= 1 and not node.keywords:
                 dims = self.fold(ast.Attribute(value=node.func.value, attr="shape", ctx=ast.Load()))
@@ -300,6 +342,26 @@ class Folder:
                 lo = self.fold(node.args[1]) if len(node.args) > 1 else next((self.fold(k.value) for k in node.keywords if k.arg == "min"), None)
                 hi = self.fold(node.args[2]) if len(node.args) > 2 else next((self.fold(k.value) for k in node.keywords if k.arg == "max"), None)
                 return _ew(lambda x: (min(hi, x) if hi is not None else x) if lo is None else max(lo, min(hi, x) if hi is not None else x), v)
+            if short in ("bitwise_xor", "bitwise_and", "bitwise_or", "bitwise_right_shift", "bitwise_left_shift") and len(node.args) == 2:
+                f = {"bitwise_xor": lambda x, y: x ^ y, "bitwise_and": lambda x, y: x & y, "bitwise_or": lambda x, y: x | y, "bitwise_right_shift": lambda x, y: x >> y, "bitwise_left_shift": lambda x, y: x << y}[short]
+                try:
+                    return _ew(f, self.fold(node.args[0]), self.fold(node.args[1]))
+                except TypeError as exc:
+                    raise Unfoldable(str(exc))
+            if short in ("floor", "ceil", "trunc", "round") and len(node.args) == 1 and nm.startswith(("torch.", "math.")):
+                f = {"floor": math.floor, "ceil": math.ceil, "trunc": math.trunc, "round": round}[short]
+                return _ew(lambda x: float(f(x)) if nm.startswith("torch.") and isinstance(x, float) else f(x), self.fold(node.args[0]))
+            if short in ("div", "floor_divide") and len(node.args) == 2 and nm.startswith("torch."):
+                mode = next((self.fold(k.value) for k in node.keywords if k.arg == "rounding_mode"), "floor" if short == "floor_divide" else None)
+                a, b = self.fold(node.args[0]), self.fold(node.args[1])
+                try:
+                    if mode == "floor":
+                        return _ew(lambda x, y: x // y, a, b)
+                    if mode is None:
+                        return _ew(lambda x, y: x / y, a, b)
+                except (TypeError, ZeroDivisionError) as exc:
+                    raise Unfoldable(str(exc))
+                raise Unfoldable("div rounding mode")
             if short in ("log1p", "expm1") and node.args:
                 try:
                     return _ew(math.log1p if short == "log1p" else math.expm1, self.fold(node.args[0]))
@@ -427,6 +489,17 @@ class Folder:
             if short == "complex" and len(node.args) == 2:
                 return _ew(lambda x, y: complex(x, y), self.fold(node.args[0]), self.fold(node.args[1]))
             if short in ("zeros", "ones") and nm.startswith("torch."):
+                if self.materialise and node.args:
+                    dims = [self.fold(a) for a in node.args]
+                    if len(dims) == 1 and isinstance(dims[0], list):
+                        dims = dims[0]
+                    if all(isinstance(d, int) and not isinstance(d, bool) and 0 <= d <= 4096 for d in dims):
+                        fill = 0 if short == "zeros" else 1
+
+                        def _mk(ds):
+                            return [_mk(ds[1:]) for _ in range(ds[0])] if ds else fill
+
+                        return _mk(dims)
                 return 0 if short == "zeros" else 1  # a constant tensor of any shape, as a broadcasting scalar
             if short in ("zeros_like",) and node.args:
                 return _ew(lambda x: 0.0, self.fold(node.args[0]))
